@@ -379,11 +379,16 @@ def make_writer(ctx, route, counter):
     tgt = m["tgt"]
     pots, eams, dips, quads = build_objects(ctx, counter)
     cutoff, nr = float(ctx.cutoff), m["nr"]
+    crho = float(ctx.cutoff_rho)
+    if ctx.idx % 2 == 1:
+        # cut-offs that are whole numbers may be handed over as Python ints (as a potable file's 'cutoff : 10' is)
+        cutoff = int(ctx.cutoff) if ctx.cutoff.denominator == 1 else cutoff
+        crho = int(ctx.cutoff_rho) if ctx.cutoff_rho.denominator == 1 else crho
     if route == "wp":
         return lambda sink: P.writePotentials(WP_NAME[tgt], pots, cutoff, nr, sink)
     if route == "func":
         nrho = m["nrho"]
-        dr, drho = cutoff / float(nr - 1), float(ctx.cutoff_rho) / float(nrho - 1)
+        dr, drho = cutoff / float(nr - 1), crho / float(nrho - 1)
         # any number of comment strings: the file still has exactly three comment lines
         comments = [[], ["c1"], ["c1", "c2", "c3"], ["c1", "c2", "c3", "c4", "c5"]][ctx.idx % 4]
         f = {"setfl": lambda sink: P.writeSetFL(nrho, drho, nr, dr, eams, pots, sink, comments),
@@ -396,9 +401,9 @@ def make_writer(ctx, route, counter):
     if m["fam"] == "pair":
         tab = cls(pots, cutoff, nr)
     elif tgt == "eam_adp":
-        tab = cls(pots, eams, dips, quads, cutoff, nr, float(ctx.cutoff_rho), m["nrho"])
+        tab = cls(pots, eams, dips, quads, cutoff, nr, crho, m["nrho"])
     else:
-        tab = cls(pots, eams, cutoff, nr, float(ctx.cutoff_rho), m["nrho"])
+        tab = cls(pots, eams, cutoff, nr, crho, m["nrho"])
     return tab.write
 
 
